@@ -253,7 +253,11 @@ def evaluate(ctx, cases, res):
             continue
         sig = c['sig']
         try:
-            impl = ('ok', list(marshal.genCompleteTypes(sig)))
+            with common.time_limit(5):
+                impl = ('ok', common.take(marshal.genCompleteTypes(sig), len(sig) + 2))
+        except common.Timeout as e:
+            impl = ('err', 'DoesNotTerminate')
+            res.violate(c, 'splitting %r does not terminate (%s)' % (sig, e), 'split-does-not-terminate')
         except Exception as e:
             impl = ('err', type(e).__name__)
         model = ('ok', [b.decode('latin-1') for b in o[1]]) if o[0] == 1 else ('err', o[1])
@@ -308,17 +312,30 @@ def evaluate(ctx, cases, res):
             if impl != ('ok', want):
                 res.violate(case, 'inferred %r, the documented inference gives %r' % (impl, want), 'inference-differs')
                 continue
-            try:
-                n, chunks = marshal.marshal('v', [v])
-                data = b''.join(chunks)
-                m, back = marshal.unmarshal('v', data)
-            except Exception as e:
-                res.violate(case, 'value inside the claim failed to encode/decode as a variant: %s: %s' % (type(e).__name__, e), 'variant-encode-fails')
+            # both byte orders, and a start offset taken from the case seed (the claim has no such restriction)
+            failed = False
+            for lendian in (True, False):
+                off = (c['seed'] >> 3) % 9 if not lendian or (c['seed'] & 1) else 0
+                try:
+                    with common.time_limit(20):
+                        n, chunks = marshal.marshal('v', [v], off, lendian)
+                        data = b''.join(chunks)
+                        m, back = marshal.unmarshal('v', b'\x55' * off + data, off, lendian)
+                except Exception as e:
+                    res.violate(case, 'value inside the claim failed to encode/decode as a variant (%s-endian, offset %d): %s: %s'
+                                % ('little' if lendian else 'big', off, type(e).__name__, e),
+                                'variant-encode-fails' if lendian else 'variant-encode-fails-big-endian')
+                    failed = True
+                    break
+                if n != len(data) or m != n:
+                    res.violate(case, 'variant byte counts differ (%s-endian, offset %d): produced %d reported %d consumed %d'
+                                % ('little' if lendian else 'big', off, len(data), n, m), 'variant-count')
+                if not eq_nan(back[0], norm(v)):
+                    res.violate(case, 'variant (%s-endian, offset %d) decoded to %r, expected a value equal to %r'
+                                % ('little' if lendian else 'big', off, back[0], norm(v)),
+                                'variant-roundtrip-value' if lendian else 'variant-roundtrip-value-big-endian')
+            if failed:
                 continue
-            if n != len(data) or m != n:
-                res.violate(case, 'variant byte counts differ: produced %d reported %d consumed %d' % (len(data), n, m), 'variant-count')
-            if not eq_nan(back[0], norm(v)):
-                res.violate(case, 'variant decoded to %r, expected a value equal to %r' % (back[0], norm(v)), 'variant-roundtrip-value')
             res.sample({'value': repr(v), 'inferred': impl[1]}, limit=6)
     res.extra['valid_signatures'] = nvalid
     res.extra['malformed_signatures'] = ninvalid
